@@ -244,6 +244,95 @@ let im_parse_m a =
   | Base.Err c -> (match int_of_n c with 1 -> "err parse" | 2 -> "err crypto" | _ -> "err init")
   | Base.Panic _ -> "panic"
 
+(* ---- node scenarios --------------------------------------------------------------------- *)
+let nz s = n_of_int (int_of_string s)
+let node_cfg (p : string array) : Node.ncfg =
+  let i = nz p.(1) in
+  let (learning, broadcast, tap) = match p.(2) with
+    | "tap-switch" -> (true, true, true) | "tap-hub" -> (false, true, true) | "tap-normal" -> (true, true, true)
+    | "tun-router" -> (false, false, false) | "tun-normal" -> (false, false, false) | "tun-switch" -> (true, true, false)
+    | "tun-hub" -> (false, true, false) | "tap-router" -> (false, false, true) | _ -> failwith "mode" in
+  { Node.c_num = i; c_addr = i; c_peer_timeout = nz p.(3);
+    c_keepalive = (if p.(4) = "-" then None else Some (nz p.(4)));
+    c_switch_timeout = nz p.(5); c_learning = learning; c_broadcast = broadcast; c_tap = tap;
+    c_claims = parse_ranges (S.concat "/" (split '/' p.(6)));
+    c_key = nz p.(7);
+    c_trusted = (if p.(8) = "-" then [] else L.map nz (split '+' p.(8)));
+    c_algos = parse_algos p.(9) }
+
+let node_op tok : NodeSys.sop * (BinNums.coq_N * BinNums.coq_N) list =
+  let (body, salts) = split_once '@' tok in
+  let p = Array.of_list (split '.' body) in
+  let salts = if salts = "" then [] else
+      L.map (fun e -> match split '=' e with
+          | [k; v] -> (match split '>' k with
+              | [nd; dst] -> (Node.salt_key (nz nd) (nz dst), n_of_int (int_of_string ("0x" ^ v)))
+              | _ -> failwith "salt key")
+          | _ -> failwith "salt") (split ';' salts) in
+  let ni s = nat_of_int (int_of_string s) in
+  let o = match p.(0) with
+    | "N" -> if Array.length p > 10 && p.(10) = "nat" then NodeSys.SNewNat (nz p.(1), node_cfg p) else NodeSys.SNew (nz p.(1), node_cfg p)
+    | "G" -> NodeSys.SGet (ni p.(1))
+    | "B" -> NodeSys.SLoop (nz p.(1), nz p.(2), nz p.(3))
+    | "T" -> NodeSys.STime (z_of_int (int_of_string p.(1)))
+    | "C" -> NodeSys.SConnect (nz p.(1), nz p.(2))
+    | "R" -> NodeSys.SReconnect (nz p.(1), nz p.(2))
+    | "H" -> NodeSys.SHousekeep (nz p.(1))
+    | "D" -> NodeSys.SDeliver (ni p.(1))
+    | "J" -> NodeSys.SInject (ni p.(1), nz p.(2), nz p.(3))
+    | "F" -> NodeSys.SFlip (ni p.(1), nz p.(2), nz p.(3), ni p.(4), nz p.(5))
+    | "U" -> NodeSys.STrunc (ni p.(1), nz p.(2), nz p.(3), ni p.(4))
+    | "W" -> NodeSys.SRaw (nz p.(1), nz p.(2), unhex p.(3))
+    | "L" -> NodeSys.SLast (nz p.(1), nz p.(2), p.(3) = "i", ni p.(4))
+    | "X" -> NodeSys.SDrop (ni p.(1))
+    | "A" -> NodeSys.SAll
+    | "P" -> NodeSys.SIface (nz p.(1), unhex p.(2))
+    | "O" -> NodeSys.SPopWrites (nz p.(1))
+    | "S" -> NodeSys.SDump (nz p.(1))
+    | _ -> failwith "bad node op" in
+  (o, salts)
+
+let kind_of (w : PeerCrypto.wire) =
+  match w with
+  | PeerCrypto.WInit m -> Printf.sprintf "I%d.%08x" (int_of_n m.Conn.im_stage) (int_of_n m.Conn.im_salt)
+  | PeerCrypto.WBadInit -> "I?"
+  | PeerCrypto.WEmpty -> "Z"
+  | w -> Printf.sprintf "D%d" (int_of_nat (PcSys.wire_len w))
+
+open BinNums
+let emit_str l = if l = [(N0, PeerCrypto.WBadInit)] then "nat" else if l = [] then "-" else S.concat "," (L.map (fun (d, w) -> Printf.sprintf "%d:%s" (int_of_n d) (kind_of w)) l)
+
+let node_dump (n : Node.node) =
+  let b x = if x then 1 else 0 in
+  let peers = L.sort compare (L.map (fun ((a, d) : BinNums.coq_N * Node.peer_data) ->
+      (int_of_n a,
+       Printf.sprintf "%d:%d:%s:%d:%d:%d:%s" (int_of_n a) (int_of_n (Base.be_val d.p_node))
+         (if d.p_crypto.PeerCrypto.pc_core = None then "PLAIN" else alg_name d.p_crypto.PeerCrypto.pc_alg)
+         (int_of_z d.p_timeout) (int_of_n d.p_peer_timeout) (b (d.p_crypto.PeerCrypto.pc_init <> None))
+         (S.concat "+" (L.map string_of_int (L.sort compare (L.map int_of_n d.p_addrs)))))) n.n_peers) in
+  let pend = L.sort compare (L.map (fun ((a, c) : BinNums.coq_N * PeerCrypto.peer_crypto) ->
+      (int_of_n a, Printf.sprintf "%d:%s" (int_of_n a)
+         (match c.PeerCrypto.pc_init with Some i -> Printf.sprintf "%d:%d" (int_of_n i.Conn.i_stage) (int_of_n i.Conn.i_retries) | None -> "-:0"))) n.n_pending) in
+  let own = L.sort compare (L.map int_of_n n.n_own) in
+  Printf.sprintf "peers=[%s];pend=[%s];own=[%s];%s;np=%d;no=%d;drop=%d;inv=%d"
+    (S.concat "," (L.map snd peers)) (S.concat "," (L.map snd pend)) (S.concat "," (L.map string_of_int own))
+    (table_dump n.n_table.Table.claims n.n_table.Table.cache) (int_of_z n.n_next_peers) (int_of_z n.n_next_own_reset)
+    (int_of_n n.n_dropped) (int_of_n n.n_invalid)
+
+let node_out (dsts : int list ref) = function
+  | NodeSys.SONone -> "-"
+  | NodeSys.SOEmit l -> emit_str l
+  | NodeSys.SOAll l -> Printf.sprintf "a%d[%s]" (L.length l) (S.concat "|" (L.map emit_str l))
+  | NodeSys.SOWrites l -> if l = [] then "w-" else "w" ^ S.concat "," (L.map hex l)
+  | NodeSys.SODump n -> node_dump n
+  | NodeSys.SOMissing -> "nodg"
+  | NodeSys.SOGet -> "g"
+  | NodeSys.SONat -> "nat"
+
+let node_scenario a =
+  let (_, outs) = NodeSys.srun NodeSys.sys0 (L.map node_op a) in
+  S.concat " " (L.map (node_out (ref [])) outs)
+
 let run (op : string) (a : string list) : string option =
   let arg i = L.nth a i in
   match op with
@@ -254,6 +343,7 @@ let run (op : string) (a : string list) : string option =
   | "core" -> Some (core_scenario a)
   | "table" -> Some (table_scenario a)
   | "pc" -> Some (pc_scenario a)
+  | "node" -> Some (node_scenario a)
   | "ni_enc" | "ni_dec" | "ni_rt" -> Some (ni_op op a)
   | "im_parse_m" -> Some (im_parse_m a)
   | "rot_dec" -> Some (match Conn.rot_decode (unhex (arg 0)) with
